@@ -141,6 +141,17 @@ class Tr:
         b, tb = self.expr(n.args[1])
         t = "int" if ta == tb == "int" else self.frac
         return f"({fn} {self.cast(a, ta, t)} {self.cast(b, tb, t)})", t
+      if fn in ("abs", "numpy.abs") and len(n.args) == 1 and not n.keywords:
+        a, ta = self.expr(n.args[0])
+        if ta not in ("int", self.frac):
+          raise TranslationError("abs of a non-number")
+        return f"(if {a} < 0 then -{a} else {a})", ta
+      if fn in ("numpy.fmax", "numpy.maximum", "numpy.fmin", "numpy.minimum") and len(n.args) == 2 and not n.keywords:
+        a, ta = self.expr(n.args[0])
+        b, tb = self.expr(n.args[1])
+        t = "int" if ta == tb == "int" else self.frac
+        op = "max" if fn in ("numpy.fmax", "numpy.maximum") else "min"
+        return f"({op} {self.cast(a, ta, t)} {self.cast(b, tb, t)})", t
       if fn in ("numpy.random.uniform", "numpy.random.random"):
         if self.frac != "rat":
           raise TranslationError(f"random draw {fn} has no floating-point reading")
@@ -189,6 +200,9 @@ class Tr:
       raise TranslationError("% on non-integers")
     if isinstance(n.op, ast.Pow) and ta == "int" and tb == "int":
       return f"({a} ^ ({b}).toNat)", "int"   # integer power with a non-negative exponent
+    if isinstance(n.op, ast.Pow) and ta == "rat" and isinstance(n.right, ast.Constant) and isinstance(n.right.value, int) \
+        and not isinstance(n.right.value, bool) and n.right.value >= 0:
+      return f"({a} ^ ({n.right.value} : Nat))", "rat"   # fraction to a literal natural power
     op = {ast.Add: "+", ast.Sub: "-", ast.Mult: "*"}.get(type(n.op))
     if op is None:
       raise TranslationError(f"operator {type(n.op).__name__}")
@@ -661,3 +675,152 @@ def generate_fl(src, tree, spec, consts, sentinels, body_stmts, all_params):
   params = "(fl : ℝ → ℝ) " + " ".join(f"({nm} : {ptypes.get(t, t)})" for nm, t in all_params)
   ret = spec["ret"].replace("Rat", "ℝ")
   return f"-- {spec['module']}: {spec['func']} (floating-point reading)\nnoncomputable def {spec['func']}_fl {params} : {ret} :=\n{body}\n\n"
+
+
+# ---------------------------------------------------------------------------------------------------------------
+# Metric normalisation (property C12): the scalar core of SingleMetricMidpointInfo.__init__ and the four affine
+# maps of MetricMidpointInfo are translated from the current source into Model/Generated/Midpoint.lean.
+# Reading: `self.<attr>` is the local `self_<attr>`; numpy.min / numpy.max of the non-failed values are the two
+# parameters self_min / self_max (the reductions themselves are the model's lmin / lmax, tied by the correspondence);
+# `min(numpy.abs([a, b]))` is `min(abs(a), abs(b))`; numpy.fmax is max (no NaN in the model); the methods are read on
+# one scalar entry of their array argument (they are elementwise).
+
+MID_MODULE = "libsigopt/compute/misc/data_containers.py"
+MID_GLUE = [   # statements of __init__ that the scalar core relies on, compared as normalised source text
+  "self.non_fail_values = values[numpy.logical_not(failures)]",
+  "self.negate = self.get_negate_from_objective(objective)",
+  "if len(self.non_fail_values) == 0:\n    self.force_skip = True",
+]
+MID_BIND = "(self.min, self.max) = (numpy.min(self.non_fail_values), numpy.max(self.non_fail_values))"
+MID_ATTRS = [("skip", "bool"), ("negate", "rat"), ("scale", "rat"), ("midpoint", "rat")]
+MID_METHODS = ["relative_objective_value", "relative_objective_variance", "undo_scaling", "undo_scaling_variances"]
+
+
+class _SelfAttrs(ast.NodeTransformer):
+  def visit_Attribute(self, node):
+    self.generic_visit(node)
+    if isinstance(node.value, ast.Name) and node.value.id == "self":
+      return ast.copy_location(ast.Name(id="self_" + node.attr, ctx=node.ctx), node)
+    return node
+
+  def visit_Call(self, node):
+    self.generic_visit(node)
+    # min(numpy.abs([a, b])) / max(numpy.abs([a, b])) -> min(abs(a), abs(b))
+    if isinstance(node.func, ast.Name) and node.func.id in ("min", "max") and len(node.args) == 1 and not node.keywords:
+      inner = node.args[0]
+      if isinstance(inner, ast.Call) and ast.unparse(inner.func) in ("numpy.abs", "numpy.absolute", "numpy.fabs") \
+          and len(inner.args) == 1 and isinstance(inner.args[0], (ast.List, ast.Tuple)) and len(inner.args[0].elts) == 2:
+        a, b = inner.args[0].elts
+        mk = lambda e: ast.copy_location(ast.Call(func=ast.Name(id="abs", ctx=ast.Load()), args=[e], keywords=[]), e)
+        return ast.copy_location(ast.Call(func=node.func, args=[mk(a), mk(b)], keywords=[]), node)
+    return node
+
+
+def _imported_consts(repo, tree, consts):
+  """numeric constants imported with `from libsigopt.x.y import NAME`"""
+  out = dict(consts)
+  for st in tree.body:
+    if isinstance(st, ast.ImportFrom) and st.module and st.module.startswith("libsigopt"):
+      path = os.path.join(repo, *st.module.split(".")) + ".py"
+      if not os.path.exists(path):
+        continue
+      _s, _t, c2, _so, _str = module_info(path)
+      for al in st.names:
+        if al.name in c2 and (al.asname or al.name) not in out:
+          out[al.asname or al.name] = c2[al.name]
+  return out
+
+
+def generate_midpoint(repo, gen_dir):
+  status = {}
+  out = [
+    "/- GENERATED by harness/pyfun.py from the current libsigopt source (compute/misc/data_containers.py). Do not edit. -/",
+    "set_option linter.unusedVariables false",
+    "namespace Gen",
+    "",
+  ]
+  path = os.path.join(repo, MID_MODULE)
+  try:
+    src, tree, consts, _so, _strs = module_info(path)
+    consts = _imported_consts(repo, tree, consts)
+    classes = {st.name: st for st in tree.body if isinstance(st, ast.ClassDef)}
+  except (OSError, SyntaxError) as e:
+    status["Midpoint"] = f"error: {e}"
+    return status
+  spec = dict(module=MID_MODULE, func="smmi_core", enum="Unit")
+  ok = True
+  # ---- scalar core of SingleMetricMidpointInfo.__init__
+  try:
+    cls = classes.get("SingleMetricMidpointInfo")
+    init = next((m for m in (cls.body if cls else []) if isinstance(m, ast.FunctionDef) and m.name == "__init__"), None)
+    if init is None:
+      raise TranslationError("SingleMetricMidpointInfo.__init__ not found")
+    texts = [ast.unparse(st) for st in init.body]
+    for g in MID_GLUE:
+      if g not in texts:
+        raise TranslationError(f"statement of __init__ changed or missing: {g.splitlines()[0]}")
+    blk = next((st for st in init.body if isinstance(st, ast.If) and ast.unparse(st.test) == "not self.force_skip" and not st.orelse), None)
+    if blk is None:
+      raise TranslationError("block `if not self.force_skip:` not found")
+    order = [texts.index(g) for g in MID_GLUE] + [init.body.index(blk)]
+    if order != sorted(order):
+      raise TranslationError("statements of __init__ re-ordered")
+    if not blk.body or ast.unparse(blk.body[0]) not in (MID_BIND, MID_BIND.replace("(self.min, self.max) = (", "self.min, self.max = (")):
+      if not blk.body or ast.unparse(blk.body[0]).replace("(", "").replace(")", "") != MID_BIND.replace("(", "").replace(")", ""):
+        raise TranslationError("binding of self.min / self.max changed")
+    import copy as _copy
+    body = [_SelfAttrs().visit(_copy.deepcopy(st)) for st in blk.body[1:]]
+    for st in body:
+      ast.fix_missing_locations(st)
+    body.append(ast.Return(value=ast.Tuple(elts=[ast.Name(id="self_midpoint", ctx=ast.Load()), ast.Name(id="self_scale", ctx=ast.Load())], ctx=ast.Load())))
+    tr = Tr(src, tree, spec, consts, {})
+    tr.env["self_min"] = "rat"
+    tr.env["self_max"] = "rat"
+    text = tr.stmts(body, 1, True)
+    params = "(self_min self_max : Rat)"
+    lets = "".join(f"  let {nm} : {lt} := {s_}\n" for nm, lt, s_ in tr.prelude)
+    dl = "[" + ", ".join(dict.fromkeys(tr.denoms)) + "]"
+    out.append(f"-- {MID_MODULE}: SingleMetricMidpointInfo.__init__, the block `if not self.force_skip:` after min/max are bound\n"
+               f"-- returns (self.midpoint, self.scale)\ndef smmi_core {params} : Rat × Rat :=\n{text}\n\n"
+               f"def smmi_core_denoms {params} : List Rat :=\n{lets}  {dl}\n")
+    status["pyfun_mid:smmi_core"] = "ok"
+  except TranslationError as e:
+    ok = False
+    status["pyfun_mid:smmi_core"] = f"error: {e}"
+  # ---- the affine maps of MetricMidpointInfo, read on one scalar entry
+  base = classes.get("MetricMidpointInfo")
+  for mname in MID_METHODS:
+    try:
+      fn = next((m for m in (base.body if base else []) if isinstance(m, ast.FunctionDef) and m.name == mname), None)
+      if fn is None:
+        raise TranslationError(f"MetricMidpointInfo.{mname} not found")
+      args = [a.arg for a in fn.args.args]
+      if len(args) != 2 or args[0] != "self":
+        raise TranslationError(f"parameter list changed: {args}")
+      stmts = list(fn.body)
+      if mname == "relative_objective_variance":
+        # the None default concerns the argument's presence, not the map: dropped when it has exactly this shape
+        first = ast.unparse(stmts[0]) if stmts else ""
+        if first.startswith(f"{args[1]} = {args[1]} if {args[1]} is not None else "):
+          stmts = stmts[1:]
+      import copy as _copy
+      body = [_SelfAttrs().visit(_copy.deepcopy(st)) for st in stmts]
+      fake = ast.FunctionDef(name=mname, args=fn.args, body=body, decorator_list=[])
+      body = normalise_body(fake, ast.Module(body=[], type_ignores=[]))
+      tr = Tr(src, tree, dict(module=MID_MODULE, func=mname, enum="Unit"), consts, {})
+      for nm, t in MID_ATTRS:
+        tr.env["self_" + nm] = t
+      tr.env[args[1]] = "rat"
+      text = tr.stmts(body, 1, True)
+      params = "(self_skip : Bool) (self_negate self_scale self_midpoint : Rat) " + f"({args[1]} : Rat)"
+      dl = "[" + ", ".join(dict.fromkeys(tr.denoms)) + "]"
+      out.append(f"-- {MID_MODULE}: MetricMidpointInfo.{mname} on one entry\ndef {mname} {params} : Rat :=\n{text}\n\n"
+                 f"def {mname}_denoms {params} : List Rat :=\n  {dl}\n")
+      status[f"pyfun_mid:{mname}"] = "ok"
+    except TranslationError as e:
+      ok = False
+      status[f"pyfun_mid:{mname}"] = f"error: {e}"
+  out.append("end Gen")
+  ch = write_if_changed(os.path.join(gen_dir, "Midpoint.lean"), "\n".join(out) + "\n")
+  status["Midpoint"] = ("changed" if ch else "same") if ok else "error: part of the metric normalisation left the translatable subset"
+  return status
